@@ -176,6 +176,10 @@ func init() {
 			Run: func(P *Program, R *Report) { lookupFaithfulRule(P, R, "C07.j", revocationLookups[:2]) }},
 		Rule{ID: "C07.k", Explain: "a failed generator is noticed: the error of every call to RandomBigInt / RandomPrimeInRange / RandInt / io.ReadFull / rand.Read in the module is looked at, so that no randomiser is nil or left over from an earlier call (same rule as C08.g: the error a call returns has a use - a nil test or a return - before it is overwritten, shadowed or left behind).",
 			Run: func(P *Program, R *Report) { errorResultsUsedRule(P, R, "C07.k", func(fn *ssa.Function) bool { return true }, func(n string) bool { return strings.Contains(n, "RandomBigInt") || strings.Contains(n, "RandomPrimeInRange") || strings.Contains(n, "RandInt") || strings.Contains(n, "ReadFull") || strings.HasSuffix(n, "rand.Read") || strings.Contains(n, "RandomQR") || strings.Contains(n, "NewCPRNG") }, 15) }},
+		Rule{ID: "C07.l", Explain: "key-stream blocks are private to the call that reserved them: CPRNG.Read keeps its cipher input and output blocks in locals - no scratch buffer in the shared generator object (the escape obligations of C20.i, same rule) - shared scratch lets concurrent callers receive the same blocks, i.e. the same randomisers.",
+			Run: func(P *Program, R *Report) { sharedRule(P, R, "C20", "C20.i", "C07.l", nil) }},
+		Rule{ID: "C07.m", Explain: "every commitment uses the secret-key randomiser it is given for this proof: Commit of both builders takes randomizers[\"secretkey\"] unconditionally (the takes-shared obligations of C03.d, same rule) - keeping the previous proof's randomiser when none is passed makes two proofs of one builder share it.",
+			Run: func(P *Program, R *Report) { sharedRule(P, R, "C03", "C03.d", "C07.m", func(c string) bool { return strings.Contains(c, "takes-shared") }) }},
 	)
 }
 
